@@ -66,8 +66,10 @@ JCorrupt(r) ==
         <<"C14:output_is_whitespace_clean", NoMixed(r.ov) /\ IsClean(r.ov)>>,
         <<"C14:operations_and_repair_recover_the_text", okOps /\ Cps(Repair(r.ov, ops)) = Cps(r.tv)>>,
         <<"C14:one_label_per_input_character",
-            r.task.ok /\ Len(r.task.labels) = Len(r.ov) + 2
-            /\ (okOps => SubSeq(r.task.labels, 2, Len(r.task.labels) - 1) = [k \in 1..Len(ops) |-> OpNum(ops[k])])>>,
+            \* npfx prefix and nsfx suffix tokens carry the label -1, the characters' labels (the operations) sit between them
+            r.task.ok /\ Len(r.task.labels) = Len(r.ov) + r.npfx + r.nsfx
+            /\ (\A k \in 1..Len(r.task.labels) : (k <= r.npfx \/ k > r.npfx + Len(r.ov)) => r.task.labels[k] + 1 = 0)
+            /\ (okOps => SubSeq(r.task.labels, r.npfx + 1, r.npfx + Len(r.ov)) = [k \in 1..Len(ops) |-> OpNum(ops[k])])>>,
         <<"C14:deterministic_in_text_and_seed", r.same_again>>,
         <<"C14:no_deletion_with_probability_zero", r.dw = "zero" => NumWs(r.ov) >= NumWs(r.tv)>>,
         <<"C14:no_insertion_with_probability_zero", r.iw = "zero" => NumWs(r.ov) <= NumWs(r.tv)>>
